@@ -33,7 +33,6 @@ class World:
         self.l0c = 361 + self.rng.randrange(40)
         self.now = now
         self.dc = refdc.DC()
-        self.dc.now = (self.l0c, now[0], now[1])
         self.rk = {}
         for name in ("rk1", "rk2"):
             rid = uuid.UUID(bytes=self.rng.randbytes(16))
@@ -44,11 +43,20 @@ class World:
         self.sd_label = {sdref.target_sd(s): k for k, s in SIDS.items()}
         self.sid_label = {s: k for k, s in SIDS.items()}
         self.cache = dpapi_ng.KeyCache()
-        ft = ((self.l0c * 32 + now[0]) * 32 + now[1]) * BASE + self.rng.randrange(BASE)
-        self.unix_ns = (ft - EPOCH) * 100
+        self.unix_ns = 0
+        self.now_l0 = 2
+        self.set_now(2, now)
         self.events: list[dict] = []
         self.plain: dict[str, bytes] = {}
         self.forced: dict[str, tuple] = {}
+
+    def set_now(self, l0_abs: int, pos: tuple[int, int]) -> None:
+        """Move the clock (client tap and DC) into the interval (l0_abs, pos)."""
+        self.now_l0, self.now = l0_abs, tuple(pos)
+        l0c = self.l0_conc(l0_abs)
+        ft = ((l0c * 32 + pos[0]) * 32 + pos[1]) * BASE + self.rng.randrange(BASE)
+        self.unix_ns = (ft - EPOCH) * 100
+        self.dc.now = (l0c, pos[0], pos[1])
 
     def l0_conc(self, l0: int) -> int:
         return self.l0c - (2 - l0)
@@ -161,11 +169,14 @@ async def _play(w: World, hist: list, timeout: float = 20.0) -> None:
         exc = tk.exception() if not tk.cancelled() else asyncio.CancelledError()
         finish_event(o, desc[o], lambda: None, exc, None if exc else tk.result())
 
-    with net, taps.clock(__import__("dpapi_ng._client", fromlist=["x"]), w.unix_ns), taps.KdfTap(budget=1500, record=False):
+    with net, taps.clock(__import__("dpapi_ng._client", fromlist=["x"]), lambda: w.unix_ns), taps.KdfTap(budget=1500, record=False):
         try:
             for i, ev in enumerate(hist):
                 kind = ev[0]
-                if kind == "load":
+                if kind == "tick":
+                    w.set_now(ev[1], tuple(ev[2]))
+                    w.events.append({"ev": "tick", "l0": ev[1], "pos": list(ev[2])})
+                elif kind == "load":
                     rid, key = w.rk[ev[1]]
                     w.cache.load_key(key, rid, kdf_parameters=refdc.kdf_parameters(w.h))
                     w.events.append({"ev": "load", "rk": ev[1]})
@@ -237,8 +248,10 @@ async def _play(w: World, hist: list, timeout: float = 20.0) -> None:
                     pass
 
 
-def play(seed: int, now: tuple[int, int], hist: list, h: str = "SHA512") -> list[dict]:
+def play(seed: int, now: tuple[int, int], hist: list, h: str = "SHA512", now_l0: int = 2) -> list[dict]:
     w = World(seed, now, h)
+    if now_l0 != 2:
+        w.set_now(now_l0, now)
     try:
         with taps.time_limit(120):
             asyncio.run(_play(w, hist))
@@ -255,9 +268,9 @@ def play(seed: int, now: tuple[int, int], hist: list, h: str = "SHA512") -> list
 def _write_mc_cfg(ctx: Ctx, name: str, **kw: str) -> str:
     base = {
         "RootKeys": "MC_Rk1", "SDs": "MC_SD2", "L0s": "MC_L0s", "Positions": "MC_Pos3", "Ops": "MC_Ops3",
-        "NowPos": "MC_NowPos", "ReplyKinds": "MC_Seed", "SyncFlavours": "MC_Async",
+        "Clock": "MC_ClockFixed", "ReplyKinds": "MC_Seed", "SyncFlavours": "MC_Async",
     }
-    lit = {"NowL0": "2", "DefaultRk": '"rk1"', "LaterReplies": "FALSE"}
+    lit = {"DefaultRk": '"rk1"', "LaterReplies": "FALSE"}
     for k, v in kw.items():
         if k in base:
             base[k] = v
@@ -281,8 +294,11 @@ def _model_check(ctx: Ctx) -> None:
             ("sync+async, seed or public-key replies, later positions, 2 ops, 2 root keys",
              dict(Ops="MC_Ops2", RootKeys="MC_Rk2", ReplyKinds="MC_Both", LaterReplies="TRUE", SyncFlavours="MC_SyncAsync", Positions="MC_Pos5",
                   **({} if ctx.thorough else {"SDs": "MC_SD1"})))]
+    runs.append(("moving clock across an L0 boundary, sync+async, 2 ops, seed or public-key replies",
+                 dict(Ops="MC_Ops2", SDs="MC_SD1", Clock="MC_ClockMoving", ReplyKinds="MC_Both", SyncFlavours="MC_SyncAsync", Positions="MC_Pos5")))
     if ctx.thorough:
         runs.append(("async, later replies, 3 ops, 5 positions, 1 SD", dict(SDs="MC_SD1", LaterReplies="TRUE", Positions="MC_Pos5")))
+        runs.append(("moving clock, async, 3 ops, 1 SD", dict(SDs="MC_SD1", Clock="MC_ClockMoving", Positions="MC_Pos3")))
     for k, (what, kw) in enumerate(runs):
         cfg = _write_mc_cfg(ctx, f"mc{k}.cfg", **kw)
         r = run_tlc("MC_KeyCache", cfg, rundir=ctx.rundir, heap=ctx.pick("6g", "16g"), timeout=3400, tag=f"mc{k}")
@@ -291,7 +307,7 @@ def _model_check(ctx: Ctx) -> None:
     live = ctx.rundir / "live.cfg"
     live.write_text(
         "CONSTANT RootKeys <- MC_Rk1\nCONSTANT SDs <- MC_SD1\nCONSTANT L0s <- MC_L0s\nCONSTANT Positions <- MC_Pos3\nCONSTANT Ops <- MC_Ops2\n"
-        "CONSTANT NowPos <- MC_NowPos\nCONSTANT ReplyKinds <- MC_Both\nCONSTANT SyncFlavours <- MC_SyncAsync\nCONSTANT NowL0 = 2\n"
+        "CONSTANT Clock <- MC_ClockMoving\nCONSTANT ReplyKinds <- MC_Both\nCONSTANT SyncFlavours <- MC_SyncAsync\n"
         "CONSTANT DefaultRk = \"rk1\"\nCONSTANT LaterReplies = FALSE\nSPECIFICATION Spec\nVIEW view\nPROPERTY EventuallyDone\nCHECK_DEADLOCK FALSE\n")
     r = run_tlc("MC_KeyCache", str(live), rundir=ctx.rundir, heap="3g", tag="live")
     require_ok(r, "KeyCache liveness: every begun call completes (WF on DcReply/Finish)")
@@ -301,7 +317,9 @@ def _model_check(ctx: Ctx) -> None:
 def _emit_behaviours(ctx: Ctx, n: int) -> list[tuple[tuple[int, int], list]]:
     out = []
     variants = [dict(emit="1", SyncFlavours="MC_SyncAsync", ReplyKinds="MC_Both", LaterReplies="TRUE", RootKeys="MC_Rk2", Positions="MC_Pos5"),
-                dict(emit="1", SyncFlavours="MC_Async", ReplyKinds="MC_Seed", LaterReplies="FALSE", RootKeys="MC_Rk1", Positions="MC_Pos3")]
+                dict(emit="1", SyncFlavours="MC_Async", ReplyKinds="MC_Seed", LaterReplies="FALSE", RootKeys="MC_Rk1", Positions="MC_Pos3"),
+                dict(emit="1", SyncFlavours="MC_SyncAsync", ReplyKinds="MC_Both", LaterReplies="FALSE", RootKeys="MC_Rk1", SDs="MC_SD1", Positions="MC_Pos5",
+                     Clock="MC_ClockMoving")]
     for k, kw in enumerate(variants):
         cfg = _write_mc_cfg(ctx, f"emit{k}.cfg", **kw)
         r = run_tlc("MC_KeyCache", cfg, rundir=ctx.rundir, workers=4, simulate=f"num={n // len(variants)}", depth=14,
@@ -309,7 +327,7 @@ def _emit_behaviours(ctx: Ctx, n: int) -> list[tuple[tuple[int, int], list]]:
         if r.errors:
             raise MachineryError(f"behaviour emission failed: {r.errors[:3]} {r.out[-800:]}")
         for h in r.cases("CASE"):
-            out.append(((10, 0), h))
+            out.append(((10, 0), h) if kw.get("Clock") != "MC_ClockMoving" else ((1, (31, 31)), h))
         ctx.cov["tlc_runs"].append({"what": f"behaviour emission (simulate) variant {k}", "module": "MC_KeyCache", "behaviours": len(out), "wall_s": round(r.wall, 1)})
     # every interleaving of 3 concurrent unprotects on ONE (root key, SD, L0) triple over cross-ordered positions
     # ((5,31) vs (10,0): smaller L1, larger L2), reduced to begin/finish order (reply delivered right before finish)
@@ -391,11 +409,27 @@ def _random_histories(ctx: Ctx, n: int) -> list[tuple[tuple[int, int], list]]:
         ops = [f"o{i+1}" for i in range(rng.randrange(2, 6))]
         pool = [(rng.randrange(32), rng.randrange(32)) for _ in range(3)] + [(31, 31), (0, 0), now]
         hist: list = []
+        cur_now_l0 = [2]
+        now0 = now
         pending: dict[str, str] = {}
         todo = list(ops)
         loads = [rk for rk in ("rk1", "rk2") if rng.random() < 0.5]
         while todo or pending:
             choices = []
+            if rng.random() < 0.12 and len([e for e in hist if e[0] == "tick"]) < 3:
+                # time passes: later position in the same L0, or the first/any interval of the next L0
+                cur_l0 = next((e[1] for e in reversed(hist) if e[0] == "tick"), 2)
+                cur = next((tuple(e[2]) for e in reversed(hist) if e[0] == "tick"), now)
+                if cur_l0 < 3 and rng.random() < 0.4:
+                    nxt = (cur_l0 + 1, rng.choice([(0, 0), (0, 1), (rng.randrange(32), rng.randrange(32))]))
+                else:
+                    later = [(a, b) for a in range(cur[0], 32) for b in range(32) if (a, b) > cur]
+                    nxt = (cur_l0, rng.choice(later)) if later else None
+                if nxt and not any(k.endswith("#") for k in pending) and not any(v == "sync" for v in pending.values()):
+                    hist.append(["tick", nxt[0], list(nxt[1])])
+                    now = nxt[1]
+                    cur_now_l0[0] = nxt[0]
+                    continue
             if todo:
                 choices.append("begin")
             if pending:
@@ -410,12 +444,13 @@ def _random_histories(ctx: Ctx, n: int) -> list[tuple[tuple[int, int], list]]:
                 sync = rng.random() < 0.25
                 if rng.random() < 0.75:
                     l0 = focus[2] if focus else rng.choice([1, 2])
-                    cand = [p for p in pool if l0 == 1 or p <= now]
+                    l0 = min(l0, cur_now_l0[0])
+                    cand = [p for p in pool if l0 < cur_now_l0[0] or p <= now]
                     pos = rng.choice(cand) if cand else (0, 0)
-                    if l0 == 2 and pos > now:
+                    if l0 == cur_now_l0[0] and pos > now:
                         pos = now
                     hist.append(["begin", o, "unprotect", focus[0] if focus else rng.choice(["rk1", "rk2"]), focus[1] if focus else rng.choice(["sdA", "sdB"]), l0, list(pos), sync])
-                    later_ok = [q for q in pool + [(31, 31)] if q >= pos and (l0 == 1 or q <= now)]
+                    later_ok = [q for q in pool + [(31, 31)] if q >= pos and (l0 < cur_now_l0[0] or q <= now)]
                     q = rng.choice(later_ok) if later_ok and rng.random() < 0.5 else pos
                 else:
                     hist.append(["begin", o, "protect", (focus[0] if focus and rng.random() < 0.7 else rng.choice(["rk1", "rk2", NORK])), (focus[1] if focus else rng.choice(["sdA", "sdB"])), -1, [-1, -1], sync])
@@ -438,7 +473,7 @@ def _random_histories(ctx: Ctx, n: int) -> list[tuple[tuple[int, int], list]]:
                     hist.append(["finish", o])
                     del pending[o]
                     del pending[o + "#"]
-        out.append((now, hist))
+        out.append((now0, hist))
     return out
 
 
@@ -446,8 +481,11 @@ def _run_histories(ctx: Ctx, hs: list[tuple[tuple[int, int], list]], base_id: in
     rows = []
     hashes = ["SHA512", "SHA256", "SHA1", "SHA384"]
     for i, (now, hist) in enumerate(hs):
-        evs = play(ctx.seed * 100003 + base_id + i, now, hist, hashes[(i + ctx.seed) % 4])
-        rows.append({"id": base_id + i, "now": list(now), "defrk": "rk1", "events": evs, "source": source, "hist": hist})
+        now_l0 = 2
+        if isinstance(now[1], (tuple, list)):
+            now_l0, now = now[0], tuple(now[1])
+        evs = play(ctx.seed * 100003 + base_id + i, now, hist, hashes[(i + ctx.seed) % 4], now_l0)
+        rows.append({"id": base_id + i, "now": list(now), "nowl0": now_l0, "defrk": "rk1", "events": evs, "source": source, "hist": hist})
         ctx.distinct(json.dumps(hist))
     return rows
 
@@ -460,7 +498,7 @@ def _judge(ctx: Ctx, rows: list[dict], bad: dict) -> None:
             raise MachineryError(f"trace rejected for a machinery reason {clauses}: {json.dumps(r)[:1500]}")
         ends = [e["res"] for e in r["events"] if e["ev"] == "end" and e["res"] not in ("plain_ok", "blob_ok")]
         key = f"cache:{clauses[0]}:{ends[0] if ends else '-'}"
-        ctx.violation(key, ",".join(clauses), {"now": r["now"], "hist": r["hist"], "events": r["events"]},
+        ctx.violation(key, ",".join(clauses), {"now": r["now"], "nowl0": r["nowl0"], "hist": r["hist"], "events": r["events"]},
                       f"history ({r['source']}): {json.dumps(r['hist'])[:700]}")
 
 
@@ -473,7 +511,7 @@ def run(ctx: Ctx) -> int:
     rnd = _random_histories(ctx, ctx.pick(320, 6000))
     rows += _run_histories(ctx, rnd, 1_000_000, "random-driver")
     ctx.count(len(rows))
-    slim = [{k: r[k] for k in ("id", "now", "defrk", "events")} for r in rows]
+    slim = [{k: r[k] for k in ("id", "now", "nowl0", "defrk", "events")} for r in rows]
     bad, stats = validate(ctx, "TraceCache", "TraceCache.cfg", slim, chunk=ctx.pick(150, 600), what="hist")
     _judge(ctx, rows, bad)
     ctx.note_drift("rpc_choice_differs_from_design_model_but_not_forbidden", sum(s.get("drift", 0) for s in stats))
@@ -493,7 +531,7 @@ def selftest(ctx: Ctx) -> int:
     refdc.ensure_ntlm_users()
     hs = _random_histories(ctx, 25)
     rows = _run_histories(ctx, hs, 0, "selftest")
-    good = [{k: r[k] for k in ("id", "now", "defrk", "events")} for r in rows if any(e["ev"] == "rpc" for e in r["events"])][:12]
+    good = [{k: r[k] for k in ("id", "now", "nowl0", "defrk", "events")} for r in rows if any(e["ev"] == "rpc" for e in r["events"])][:12]
     bad = []
     for k, r in enumerate(good):
         c = json.loads(json.dumps(r))
@@ -520,7 +558,7 @@ def replay(ctx: Ctx, rec: dict) -> int:
     refdc.ensure_ntlm_users()
     case = rec["case"]
     evs = play(12345, tuple(case["now"]), case["hist"])
-    row = {"id": 0, "now": case["now"], "defrk": "rk1", "events": evs}
+    row = {"id": 0, "now": case["now"], "nowl0": case.get("nowl0", 2), "defrk": "rk1", "events": evs}
     bad, _ = validate(ctx, "TraceCache", "TraceCache.cfg", [row], what="replay")
     for e in evs:
         print(json.dumps(e))
